@@ -29,7 +29,7 @@ Lemma node_links ns : forall t p, denotes ns p t -> forall j n, has_id t j -> nt
 Proof.
   assert (root_lt : forall t p, denotes ns p t -> nid t < length ns).
   { intros t p D. destruct (denotes_root ns p t D) as (n & Hn & _). apply nth_error_Some. congruence. }
-  induction t as [i d k|i d k a IH|i d k a IH|i d k l IHl r IHr|i k a IH]; intros p D j n Hj Hn; cbn [denotes has_id] in *.
+  induction t as [i d k|i d k a IH|i d k a IH|i d k l IHl r IHr|b i k a IH]; intros p D j n Hj Hn; cbn [denotes has_id] in *.
   - subst j. destruct D as (n0 & Hn0 & A). rewrite Hn0 in Hn. injection Hn as <-.
     destruct A as (_ & _ & _ & _ & Hl & Hr & _). rewrite Hl, Hr. split; intros k0 E; discriminate E.
   - destruct D as (n0 & Hn0 & _ & _ & _ & Hl & Hr & _ & Da). destruct Hj as [->|Hj]; [|eapply IH; eauto].
